@@ -90,6 +90,7 @@ def cmd_check(args, vx):
     known = load_known(vx.VERIF)
     obligations = discharged = 0
     fn_records, samples, rewrites, items_all = [], [], [], []
+    samples_tagged = []
     smt_ms = 0
     canaries_total = canaries_failed = 0
     assumptions_scan = {}
@@ -208,9 +209,15 @@ def cmd_check(args, vx):
         for i, l in enumerate(res.gen.lines):
             inf = res.gen.info[i]
             if inf.kind == "woven" and prop in inf.tags and (inf.directive or "").split()[0:1] and (inf.directive or "").split()[0] in ("spec", "loop", "closure") \
-                    and ("//:" in l or len(samples) < 4) and len(samples) < 14 and re.search(r"[A-Za-z]", l) and not l.strip().startswith("#[") \
+                    and re.search(r"[A-Za-z]", l) and not l.strip().startswith("#[") \
                     and not re.match(r"\s*(requires|ensures|invariant|decreases)\s*$", l):
-                samples.append({"unit": u, "item": res.gen.items[inf.item]["name"], "clause": l.strip()[:200], "contract": f"{inf.tmpl_file}:{inf.tmpl_line}"})
+                rec = {"unit": u, "item": res.gen.items[inf.item]["name"], "clause": l.strip()[:200], "contract": f"{inf.tmpl_file}:{inf.tmpl_line}"}
+                # clauses tagged with this property first (they state it), then clauses of functions it depends on
+                if re.search(r"//:.*\b" + prop + r"\b", l):
+                    if len(samples_tagged) < 12:
+                        samples_tagged.append(rec)
+                elif len(samples) < 4:
+                    samples.append(rec)
     if obligations == 0:
         tool_problems.append("vacuity: zero obligations")
 
@@ -221,7 +228,14 @@ def cmd_check(args, vx):
             from . import trie
             summ, tv = trie.validate(sample, vx.REPO, vx.VERIF)
             trie_summaries.append(summ)
+            # a property that is about particular declarations only (C09: the queue queries) counts only their spellings
+            only = pc.get("trie_only")
+            other_trie = [v for v in tv if only and not re.search(only, (v.get("input") or "") + " " + v["what"], re.I)]
+            for v in other_trie:
+                other_failures.append({"obligation": f"trie:{sample}:{v['what']}", "tags": ["C01", "C11"]})
             for v in tv:
+                if v in other_trie:
+                    continue
                 violations.append({"obligation": f"trie:{sample}:{v['what']}", "item": f"macro output for samples/{sample}", "message": v["what"],
                                    "spans": [], "rendered": v["what"], "tags": [prop], "site": "", "trie_input": v["input"], "sample": sample})
         except ToolError as e:
@@ -351,7 +365,7 @@ def cmd_check(args, vx):
             "obligations": obligations, "discharged": discharged,
             "checker_cmd": f"verus build/<unit>.rs --multiple-errors 20 (units: {', '.join(units)}), generated by ./vx from /repo working tree",
             "trusted_base": cfg.get("trusted_base_common", []) + pc.get("trusted_base", []),
-            "samples": samples or [{"note": "no clause tagged with this property in generated units"}],
+            "samples": (samples_tagged + samples)[:14] or [{"note": "no clause tagged with this property in generated units"}],
             "explanation": pc.get("explanation", ""),
             "backend": f"Verus {results[(units_ok[0], False)].verus_version if units_ok else '?'} (bundled Z3)",
             "solver_time_ms": smt_ms,
